@@ -198,12 +198,15 @@ def real_main(job):
     if fmt == "path":
         return run_main(_CASES[ci][2], o)
     with tempfile.TemporaryDirectory(prefix="c17-") as d:
+        # every third file carries a comma in its name (the name goes into the CSV), every other mmCIF file writes
+        # occupancies below 1 without the leading zero (.50 is a CIF number like 0.50)
+        stem = "synthetic,v2" if ci % 3 == 0 else "synthetic"
         if fmt == "pdb":
-            path = os.path.join(d, "synthetic.pdb")
+            path = os.path.join(d, stem + ".pdb")
             g3.write_pdb(st, path)
         else:
-            path = os.path.join(d, "synthetic.cif")
-            g3.write_cif(st, path, metadata=(fmt == "cif-meta"))
+            path = os.path.join(d, stem + ".cif")
+            g3.write_cif(st, path, metadata=(fmt == "cif-meta"), short_occupancy=(ci % 2 == 0))
         return run_main(path, o)
 
 
